@@ -279,3 +279,7 @@ mod tests {
         assert_eq!(idmap2.len(), 2);
     }
 }
+
+#[cfg(kani)]
+#[path = "/verif/kani/storage/idmap.rs"]
+mod kani_harness;
